@@ -726,7 +726,7 @@ pub fn check(tier: Tier, seed: u64) -> PropReport {
     );
     rep.assumptions = vec!["contracts run natively inside cw-multi-test; a rejected message leaving the snapshot unchanged is verified on every attempt, which is what makes re-probing the same state sound".into()];
     let cases = match tier {
-        Tier::Quick => 3000,
+        Tier::Quick => 10_000,
         Tier::Thorough => 100_000,
     };
     let o = drive(&Protections, "C13", tier, cases, seed);
